@@ -76,6 +76,8 @@ def gen_wire_cases(rng, n, big, ops=('unpack', 'acc')):
             base = encs[rng.randrange(len(encs))][1]
             for _ in range(3):
                 encs.append(('mutated', mutate(rng, base)))
+            if rng.random() < 0.5:
+                encs.append(('mutated', encode(sch, m, rng, {'overlong': True, 'shuffle': rng.random() < 0.5})))
             if rng.random() < 0.3:
                 encs.append(('random', bytes(rng.getrandbits(8) for _ in range(rng.randrange(0, 24)))))
             for kind, b in encs:
@@ -170,7 +172,7 @@ def gen_alloc_cases(rng, n, big, faults):
             m = rand_msg(rng, sch, ty, big=False)
             knobs = {'pad': rng.random() < 0.3, 'flip_packed': rng.random() < 0.4, 'split_packed': rng.random() < 0.5,
                      'stale': rng.random() < 0.6, 'shuffle': rng.random() < 0.5, 'empty_packed': rng.random() < 0.3,
-                     'split_msg': rng.random() < 0.7, 'multi_oneof': rng.random() < 0.6}
+                     'split_msg': rng.random() < 0.5, 'multi_occ': rng.random() < 0.5, 'multi_oneof': rng.random() < 0.6}
             b = encode(sch, m, rng, knobs)
             if rng.random() < 0.25:
                 b = mutate(rng, b)
@@ -231,7 +233,8 @@ def gen_valid_cases(rng, n, big, merge=False):
                 knobs = {'pad': rng.random() < 0.6, 'flip_packed': rng.random() < 0.5, 'split_packed': rng.random() < 0.5,
                          'stale': rng.random() < 0.5, 'shuffle': rng.random() < 0.6, 'empty_packed': rng.random() < 0.4}
                 if merge:
-                    knobs['split_msg'] = True
+                    knobs['split_msg'] = rng.random() < 0.6
+                    knobs['multi_occ'] = rng.random() < 0.7
                     knobs['multi_oneof'] = rng.random() < 0.7
                 b = encode(sch, m, rng, knobs)
                 lines.append('unpack %d X%s' % (ty, b.hex()))
